@@ -226,6 +226,26 @@ pub trait Space<VM: VMBinding>: 'static + SFT + Sync + Downcast {
             );
         }
 
+        #[cfg(feature = "mmtk_verif")]
+        {
+            // descriptor of the first and of the last byte as the VM map sees them now
+            let d0 = self.common().vm_map().get_descriptor_for_address(res.start);
+            let d1 = self
+                .common()
+                .vm_map()
+                .get_descriptor_for_address(res.start + bytes - 1);
+            crate::verif::emit(
+                crate::verif::EV_GRANT,
+                pr.common() as *const _ as usize as u64,
+                res.start.as_usize() as u64,
+                res.pages as u64,
+                if d0 == d1 {
+                    crate::verif::descriptor_bits(d0) as u64
+                } else {
+                    u64::MAX
+                },
+            );
+        }
         debug!("Space.acquire(), returned = {}", res.start);
         Some(res.start)
     }
